@@ -3,7 +3,7 @@
   (first part: CRC64 footer / header helpers shared with the C05 driver)
 -/
 import GunYu.Basic.Bytes
-import GunYu.Model.Rdb.Crc64
+import GunYu.Gen.Crc64Table
 import GunYu.Model.Store
 
 namespace GunYu.StoreFs
@@ -18,7 +18,12 @@ def ofLE : Bytes → Nat
   | [] => 0
   | b :: rest => b.toNat + 256 * ofLE rest
 
-def crc64 (bs : Bytes) : Nat := (Rdb.crc64Tab bs).toNat
+/-- `digest.update`: `crc = crc64_table[byte(crc)^b] ^ (crc >> 8)` over the table
+    regenerated from pkg/digest/crc64.go -/
+def crc64Step (crc : UInt64) (b : UInt8) : UInt64 :=
+  (Gen.crc64Table.getD ((crc ^^^ b.toUInt64) &&& 0xFF).toNat 0#64).toNat.toUInt64 ^^^ (crc >>> 8)
+
+def crc64 (bs : Bytes) : Nat := (bs.foldl crc64Step 0).toNat
 
 /-- `RdbReader.checkHeader`: files of at most 8 bytes pass; otherwise the last
     8 bytes are the little-endian CRC64 of everything before them. -/
